@@ -423,6 +423,51 @@ def generate(repo):
         return 'Definition g_colours : list string := %s.' % coq_list([coq_str(c) for c in cols])
     out.add('g_palette', palette)
 
+    # ---- permutation moves (statement fingerprints, compared modulo whitespace)
+    def moves():
+        def W(x):
+            return ' '.join(ast.unparse(x).split())
+
+        def has(fn, *frags):
+            src = W(S(fn))
+            for fr in frags:
+                need(' '.join(fr.split()) in src, '%s: missing `%s`' % (fn, fr[:50]))
+        has('swapRes', 'if index1 == index2: return Sequence(self.seq)', 'tempseq = list(self.seq)',
+            'tempseq[index1], tempseq[index2] = (tempseq[index2], tempseq[index1])',
+            'tempChargeSeq = cp.deepcopy(self.chargePattern)', 'tempChargeSeq[index1] = charge2', 'tempChargeSeq[index2] = charge1',
+            "return Sequence(''.join(tempseq), self.dmax, tempChargeSeq)")
+        has('swapRandChargeRes', 'posInd = set(np.where(self.chargePattern > 0)[0]) - frozen',
+            'negInd = set(np.where(self.chargePattern < 0)[0]) - frozen', 'neutInd = set(np.where(self.chargePattern == 0)[0]) - frozen',
+            'if len(neutInd) == 0: if len(posInd) == 0 or len(negInd) == 0:', 'chargeType = [1, 2]',
+            'elif len(negInd) == 0: if len(posInd) == 0 or len(neutInd) == 0:', 'chargeType = [1, 3]',
+            'elif len(posInd) == 0: if len(negInd) == 0 or len(neutInd) == 0:', 'chargeType = [2, 3]',
+            'chargeType = rand.sample([1, 2, 3], 2)', 'if chargeType[0] == 1: swapPair1 = rand.sample(sorted(posInd), 1)',
+            'elif chargeType[0] == 2: swapPair1 = rand.sample(sorted(negInd), 1)', 'elif chargeType[0] == 3: swapPair1 = rand.sample(sorted(neutInd), 1)',
+            'if chargeType[1] == 1: swapPair2 = rand.sample(sorted(posInd), 1)', 'return self.swapRes(swapPair1[0], swapPair2[0])')
+        has('full_shuffle', 'moveable_indicies = set(np.arange(0, self.len)) - set(frozen)', 'newseq = list(moveable_indicies)',
+            'rand.shuffle(newseq)', 'for i in range(0, self.len): if i in frozen: new_seq.append(lookup[i]) else: new_seq.append(lookup[newseq.pop()])',
+            "return Sequence(''.join(new_seq), self.dmax)")
+        has('permute_block_swap', 'max_block_size = floor(self.len / 2)', 'min_block_size = 2',
+            'block_size = rand.randint(min_block_size, max_block_size)', 'possible_start_idxs = list(range(self.len - (block_size - 1) * 2))',
+            'for i in sorted(rand.sample(possible_start_idxs, 2)): i += offset blocks_to_swap.append(seq_idxs[i:i + block_size]) offset += block_size - 1',
+            'newseq[min(blocks_to_swap[0]):max(blocks_to_swap[0])] = old_seq_list[min(blocks_to_swap[1]):max(blocks_to_swap[1])]',
+            'newseq[min(blocks_to_swap[1]):max(blocks_to_swap[1])] = old_seq_list[min(blocks_to_swap[0]):max(blocks_to_swap[0])]',
+            "outseq = Sequence(''.join(newseq), self.dmax)")
+        has('permute_cluster_charges', 'cluster_size = rand.randint(2, n_charge)',
+            'cluster_center_idx = rand.randint(floor(cluster_size / 2), len(self.seq) - ceil(cluster_size / 2))',
+            'cluster_idxs = list(range(cluster_center_idx - floor(cluster_size / 2), cluster_center_idx + ceil(cluster_size / 2)))',
+            'swap_idxs = [idx for idx, res in enumerate(self.seq) if res in charge and idx not in cluster_idxs]',
+            'swap_idxs = rand.sample(swap_idxs, cluster_size)',
+            'if idx in swap_idxs: newseq += cluster_res.pop(0) elif idx in cluster_idxs: newseq += swap_res.pop(0) else: newseq += res',
+            'outseq = Sequence(newseq, self.dmax)')
+        sp = parse_file(repo + '/localcider/sequenceParameters.py')
+        need('return SequenceParameters(SeqObj=self.SeqObj.full_shuffle(frozen))' in W(find_func(sp, 'get_shuffled_sequence', 'SequenceParameters')),
+             'get_shuffled_sequence')
+        pm = parse_file(repo + '/localcider/sequencePermutants.py')
+        need('SO = self.SeqObj.full_shuffle([])' in W(find_func(pm, 'get_permutant', 'SequencePermutants')), 'get_permutant')
+        return 'Definition g_moves_shape_ok : bool := true.'
+    out.add('g_moves', moves)
+
     # ---- Omega, Omega_seq, kappa_X, __parse_group
     def omega():
         f = S('Omega')
